@@ -48,8 +48,8 @@ pub(crate) fn encode_bytes<B: AsRef<[u8]> + ?Sized, W: Write>(
     mut writer: W,
 ) -> AvroResult<usize> {
     let bytes = s.as_ref();
-    encode_long(bytes.len() as i64, &mut writer)?;
-    write_all_bytes(&mut writer, bytes)
+    let prefix_len = encode_long(bytes.len() as i64, &mut writer)?;
+    Ok(prefix_len + write_all_bytes(&mut writer, bytes)?)
 }
 
 /// Write the whole of `bytes` to the writer, returning the number of bytes written.
@@ -212,8 +212,10 @@ pub(crate) fn encode_internal<W: Write, S: Borrow<Schema>>(
                     .schemas
                     .get(*idx as usize)
                     .expect("Invalid Union validation occurred");
-                encode_long(*idx as i64, &mut *writer)?;
-                encode_internal(item, inner_schema, names, enclosing_namespace, &mut *writer)
+                let index_len = encode_long(*idx as i64, &mut *writer)?;
+                let item_len =
+                    encode_internal(item, inner_schema, names, enclosing_namespace, &mut *writer)?;
+                Ok(index_len + item_len)
             } else {
                 error!("invalid schema type for Union: {schema:?}");
                 Err(Details::EncodeValueAsSchemaError {
@@ -225,10 +227,11 @@ pub(crate) fn encode_internal<W: Write, S: Borrow<Schema>>(
         }
         Value::Array(items) => {
             if let Schema::Array(ref inner) = *schema {
+                let mut written_bytes = 0;
                 if !items.is_empty() {
-                    encode_long(items.len() as i64, &mut *writer)?;
+                    written_bytes += encode_long(items.len() as i64, &mut *writer)?;
                     for item in items.iter() {
-                        encode_internal(
+                        written_bytes += encode_internal(
                             item,
                             &inner.items,
                             names,
@@ -237,7 +240,7 @@ pub(crate) fn encode_internal<W: Write, S: Borrow<Schema>>(
                         )?;
                     }
                 }
-                write_all_bytes(writer, &[0u8])
+                Ok(written_bytes + write_all_bytes(writer, &[0u8])?)
             } else {
                 error!("invalid schema type for Array: {schema:?}");
                 Err(Details::EncodeValueAsSchemaError {
@@ -249,11 +252,12 @@ pub(crate) fn encode_internal<W: Write, S: Borrow<Schema>>(
         }
         Value::Map(items) => {
             if let Schema::Map(ref inner) = *schema {
+                let mut written_bytes = 0;
                 if !items.is_empty() {
-                    encode_long(items.len() as i64, &mut *writer)?;
+                    written_bytes += encode_long(items.len() as i64, &mut *writer)?;
                     for (key, value) in items {
-                        encode_bytes(key, &mut *writer)?;
-                        encode_internal(
+                        written_bytes += encode_bytes(key, &mut *writer)?;
+                        written_bytes += encode_internal(
                             value,
                             &inner.types,
                             names,
@@ -262,7 +266,7 @@ pub(crate) fn encode_internal<W: Write, S: Borrow<Schema>>(
                         )?;
                     }
                 }
-                write_all_bytes(writer, &[0u8])
+                Ok(written_bytes + write_all_bytes(writer, &[0u8])?)
             } else {
                 error!("invalid schema type for Map: {schema:?}");
                 Err(Details::EncodeValueAsSchemaError {
